@@ -909,6 +909,9 @@ impl Sys {
             write!(s, "{}:{:?}:{}:{};", c.info.target, c.info.status, c.info.killed, c.info.reaped).unwrap();
         }
         write!(s, "|{}|{}|{:?}|{:?}|{:?}", self.notify_left, self.change_left, self.file_version, self.pending_notifs, self.watched).unwrap();
+        // what each script saw when it started: together with the effects this determines the files and the
+        // records on disk (the order of a change relative to a start is not part of any actor's history)
+        write!(s, "|{:?}", self.spawn_inputs).unwrap();
         let alive: Vec<&str> = self.tasks.iter().filter(|t| t.fut.is_some()).map(|t| t.name.as_str()).collect();
         write!(s, "|{:?}", alive).unwrap();
         let mut h1 = std::collections::hash_map::DefaultHasher::new();
